@@ -58,3 +58,86 @@ func TestZZF15BloomFilterAfterDictionaryFallback(t *testing.T) {
 		t.Fatalf("bloom filter reports %d of %d written values absent", absent, len(rows))
 	}
 }
+
+func TestZZF15Variants(t *testing.T) {
+	type Row struct {
+		S string   `parquet:"s,dict"`
+		O *string  `parquet:"o,dict,optional"`
+		L []string `parquet:"l,dict,list"`
+	}
+	key := make([]byte, 16)
+	for name, opts := range map[string][]parquet.WriterOption{
+		"v1":         {parquet.DataPageVersion(1)},
+		"v2":         {parquet.DataPageVersion(2)},
+		"compressed": {parquet.Compression(&parquet.Zstd)},
+		"encrypted":  {parquet.WithEncryption(&parquet.EncryptionConfig{FooterKey: key, EncryptedFooter: true})},
+		"rowgroups":  {parquet.MaxRowsPerRowGroup(700)},
+	} {
+		var buf bytes.Buffer
+		opts = append(opts, parquet.DictionaryMaxBytes(512), parquet.PageBufferSize(1024),
+			parquet.BloomFilters(parquet.SplitBlockFilter(10, "s"), parquet.SplitBlockFilter(10, "o"), parquet.SplitBlockFilter(10, "l", "list", "element")))
+		w := parquet.NewGenericWriter[Row](&buf, opts...)
+		rows := make([]Row, 2000)
+		for i := range rows {
+			rows[i].S = fmt.Sprintf("value-%06d", i)
+			if i%3 != 0 {
+				s := fmt.Sprintf("opt-%06d", i)
+				rows[i].O = &s
+			}
+			rows[i].L = []string{fmt.Sprintf("a-%06d", i), fmt.Sprintf("b-%06d", i)}
+		}
+		if _, err := w.Write(rows); err != nil {
+			t.Fatal(name, err)
+		}
+		if err := w.Close(); err != nil {
+			t.Fatal(name, err)
+		}
+		var fopts []parquet.FileOption
+		if name == "encrypted" {
+			fopts = append(fopts, parquet.WithDecryption(zzKeys15{key}))
+		}
+		f, err := parquet.OpenFile(bytes.NewReader(buf.Bytes()), int64(buf.Len()), fopts...)
+		if err != nil {
+			t.Fatal(name, err)
+		}
+		check := func(col int, v string) bool {
+			for _, rg := range f.RowGroups() {
+				bf := rg.ColumnChunks()[col].BloomFilter()
+				if bf == nil {
+					t.Fatalf("%s: no filter on column %d", name, col)
+				}
+				ok, err := bf.Check(parquet.ValueOf(v))
+				if err != nil {
+					t.Fatal(name, err)
+				}
+				if ok {
+					return true
+				}
+			}
+			return false
+		}
+		// leaf column order: l.list.element, o, s
+		absent := 0
+		for _, r := range rows {
+			if !check(0, r.S) {
+				absent++
+			}
+			if r.O != nil && !check(1, *r.O) {
+				absent++
+			}
+			for _, e := range r.L {
+				if !check(2, e) {
+					absent++
+				}
+			}
+		}
+		if absent > 0 {
+			t.Errorf("%s: %d written values reported absent", name, absent)
+		}
+	}
+}
+
+type zzKeys15 struct{ k []byte }
+
+func (z zzKeys15) FooterKey([]byte) ([]byte, error)            { return z.k, nil }
+func (z zzKeys15) ColumnKey([]string, []byte) ([]byte, error) { return z.k, nil }
